@@ -31,6 +31,9 @@ R = [
     ('R11.fill_dst', r'std::fill_n\(it_dst, ([^,]+), dst_zero\);', r'DST_ZERO(y, it_dst, \1);', False),
     ('R11.corr1', r'correlator\(&buffer\.front\(\), &buffer\.front\(\) \+ ([^,]+),\s*kernel\.begin\(\), it_dst\);', r'CORRELATE(y, 0, \1, it_dst);', False),
     ('R11.corr2', r'correlator\(\s*&buffer\.front\(\), &buffer\.front\(\) \+ ([^,]+),\s*kernel\.begin\(\),\s*dst_view\.row_begin\(y\)\);', r'CORRELATE(y, 0, \1, 0);', False),
+    # variant: the correlator fed from the source row directly (no private copy)
+    ('R11.it_src_decl', r'typename SrcView::x_iterator it_src = src_view\.row_begin\(y\);', 'ptrdiff_t it_src = 0;', False),
+    ('R11.corr_src', r'correlator\(it_src, it_src \+ \(?([^,;]+?)\)?,\s*kernel\.begin\(\), it_dst\);', r'CORRELATE_SRC(y, it_src, \1, it_dst);', False),
     ('R11.it_buffer_decl', r'PixelAccum \*it_buffer = &buffer\.front\(\);', 'ptrdiff_t it_buffer = 0;', False),
     ('R11.assign_padded', r'assign_pixels\(\s*src_view\.row_begin\(y\) - ([^,]+),\s*src_view\.row_end\(y\) \+ ([^,]+),\s*it_buffer\);', r'SRC_READ(y, -(ptrdiff_t)(\1), width + (ptrdiff_t)(\1) + (ptrdiff_t)(\2)); BUF_WRITE(it_buffer, width + (ptrdiff_t)(\1) + (ptrdiff_t)(\2), 1);', False),
     ('R11.fill_buf_zero', r'std::fill_n\(it_buffer, ([^,]+), acc_zero\);', r'BUF_WRITE(it_buffer, \1, 0);', False),
@@ -44,7 +47,7 @@ R = [
 ]
 X_ALL = [
     X('correlate_rows_impl', CV, r'void correlate_rows_impl\(\s*SrcView const& src_view,\s*Kernel const& kernel,\s*DstView const& dst_view,\s*boundary_option option,\s*Correlator correlator\)\s*\{', count=1,
-      rules=R + [('must_corr', r'CORRELATE\(', 'CORRELATE(', True), ('must_buf', r'BUF_ALLOC\(', 'BUF_ALLOC(', True)]),
+      rules=R + [('must_corr', r'CORRELATE(?:_SRC)?\(', lambda m: m.group(0), True), ('must_buf', r'BUF_ALLOC\(', 'BUF_ALLOC(', True)]),
     X('left_size', KR, r'std::size_t left_size\(\) const\s*\{', nth=0, count=2, rules=[('R14.assert', r'BOOST_ASSERT\(', 'PRECONDITION(', False), ('R3.c', r'\bcenter_\b', 'self->center_', False), ('R3.s', r'this->size\(\)', 'self->size', False)]),
     X('right_size', KR, r'std::size_t right_size\(\) const\s*\{', nth=0, count=2, rules=[('R14.assert', r'BOOST_ASSERT\(', 'PRECONDITION(', False), ('R3.c', r'\bcenter_\b', 'self->center_', False), ('R3.s', r'this->size\(\)', 'self->size', False)]),
 ]
@@ -67,12 +70,14 @@ __CPROVER_assigns()
 @@right_size@@
 /* ---- ghost monitors: one ghost output pixel (g_y, g_x) and one ghost buffer cell g_cell of the row being processed ---- */
 ptrdiff_t g_y, g_x, g_w, g_h, g_pad_left, g_pad_right; size_t g_ksize, g_bufsize; ptrdiff_t g_cell;
+ptrdiff_t g_dirty_row;  /* the row whose destination pixels have been written most recently (-1: none) */
 int g_state;            /* of the ghost output pixel: 0 untouched, 1 zeroed, 2 correlated */
 int g_writes;           /* how many times the ghost output pixel was written */
 int g_cell_writes;      /* how many times the ghost buffer cell was written for the current row */
 _Bool g_whole_view_scaled;
 static void BUF_ALLOC(size_t n) { g_bufsize = n; }
 static void SRC_READ(ptrdiff_t y, ptrdiff_t x, ptrdiff_t len) {
+  __CPROVER_assert(y != g_dirty_row, "ALIAS: a source row is read before any destination pixel of that row is written (the destination may be the source: detail::convolve_1d filters in place)");
   __CPROVER_assert(0 <= y && y < g_h && len >= 0 && x >= -g_pad_left && x + len <= g_w + g_pad_right, "ACCESS: source reads stay in the row (plus the caller's padding under extend_padded)"); }
 static void BUF_WRITE(ptrdiff_t pos, size_t len, int kind) {
   __CPROVER_assert(pos >= 0 && (size_t)pos + len <= g_bufsize, "ACCESS: buffer writes stay inside the row buffer");
@@ -81,15 +86,24 @@ static void CORRELATE(ptrdiff_t y, ptrdiff_t buf_first, ptrdiff_t outputs, ptrdi
   __CPROVER_assert(outputs >= 0 && buf_first >= 0 && (outputs == 0 || (size_t)(buf_first + outputs - 1) + g_ksize <= g_bufsize), "ACCESS: every correlation window [i, i + kernel.size()) lies inside the row buffer");
   __CPROVER_assert(dst_first >= 0 && dst_first + outputs <= g_w && 0 <= y && y < g_h, "ACCESS: correlated outputs are written inside the destination row");
   /* the ghost buffer cell, if some window uses it, has been written exactly once for this row */
+  g_dirty_row = y;
+  if (y == g_y && dst_first <= g_x && g_x < dst_first + outputs) { g_state = 2; g_writes = g_writes + 1; } }
+/* the correlator reading the source row itself: output i is written while outputs i+1.. still read the row */
+static void CORRELATE_SRC(ptrdiff_t y, ptrdiff_t src_first, ptrdiff_t outputs, ptrdiff_t dst_first) {
+  __CPROVER_assert(outputs >= 0 && src_first >= -g_pad_left && (outputs == 0 || src_first + outputs - 1 + (ptrdiff_t)g_ksize <= g_w + g_pad_right) && 0 <= y && y < g_h, "ACCESS: every correlation window lies inside the source row");
+  __CPROVER_assert(dst_first >= 0 && dst_first + outputs <= g_w, "ACCESS: correlated outputs are written inside the destination row");
+  __CPROVER_assert(y != g_dirty_row && (outputs <= 1 || g_ksize == 1), "ALIAS: a source row is read before any destination pixel of that row is written (the destination may be the source: detail::convolve_1d filters in place)");
+  g_dirty_row = y;
   if (y == g_y && dst_first <= g_x && g_x < dst_first + outputs) { g_state = 2; g_writes = g_writes + 1; } }
 static void DST_ZERO(ptrdiff_t y, ptrdiff_t first, size_t len) {
   __CPROVER_assert(first >= 0 && first + (ptrdiff_t)len <= g_w && 0 <= y && y < g_h, "ACCESS: zero-fill stays inside the destination row");
+  if (len > 0) g_dirty_row = y;
   if (y == g_y && first <= g_x && g_x < first + (ptrdiff_t)len) { g_state = 1; g_writes = g_writes + 1; } }
 static void DST_ZERO_ALL(void) { g_state = 1; g_writes = g_writes + 1; }
 static void SCALE_WHOLE_VIEW(void) { g_whole_view_scaled = 1; g_state = 2; g_writes = g_writes + 1; }
 #define ROW_LOOP_CONTRACT \
-  __CPROVER_assigns(y, g_state, g_writes) \
-  __CPROVER_loop_invariant(0 <= y && y <= height) \
+  __CPROVER_assigns(y, g_state, g_writes, g_dirty_row) \
+  __CPROVER_loop_invariant(0 <= y && y <= height && g_dirty_row < y) \
   __CPROVER_loop_invariant(y <= g_y ? (g_state == 0 && g_writes == 0) : ROW_DONE) \
   __CPROVER_decreases(height - y)
 /* what must hold for the ghost output pixel once its row has been processed */
@@ -101,12 +115,12 @@ void correlate_rows_impl(const view_t* src_view, const kernel_t* kernel, const v
 __CPROVER_requires(__CPROVER_is_fresh(src_view, sizeof(*src_view)) && __CPROVER_is_fresh(dst_view, sizeof(*dst_view)) && __CPROVER_is_fresh(kernel, sizeof(*kernel)))
 __CPROVER_requires(0 <= src_view->w && src_view->w <= WMAX && 0 <= src_view->h && src_view->h <= WMAX && dst_view->w == src_view->w && dst_view->h == src_view->h)
 __CPROVER_requires(1 <= kernel->size && kernel->size <= KMAX && kernel->center_ < kernel->size && OPT_output_ignore <= option && option <= OPT_extend_constant)
-__CPROVER_requires(g_w == src_view->w && g_h == src_view->h && g_ksize == kernel->size && 0 <= g_y && g_y < g_h && 0 <= g_x && g_x < g_w && g_state == 0 && g_writes == 0 && !g_whole_view_scaled)
+__CPROVER_requires(g_w == src_view->w && g_h == src_view->h && g_ksize == kernel->size && 0 <= g_y && g_y < g_h && 0 <= g_x && g_x < g_w && g_state == 0 && g_writes == 0 && !g_whole_view_scaled && g_dirty_row == -1)
 #ifdef OPTION_CASE
 __CPROVER_requires(option == OPTION_CASE)          /* one proof cell per boundary option; the five cells cover the enum */
 #endif
 __CPROVER_requires(option == OPT_extend_padded ? (g_pad_left == (ptrdiff_t)kernel->center_ && g_pad_right == (ptrdiff_t)(kernel->size - kernel->center_ - 1)) : (g_pad_left == 0 && g_pad_right == 0))
-__CPROVER_assigns(g_state, g_writes, g_bufsize, g_whole_view_scaled)
+__CPROVER_assigns(g_state, g_writes, g_bufsize, g_whole_view_scaled, g_dirty_row)
 /* every output pixel (ghost g_x, g_y): written at most once; correlated exactly when the boundary option says so, else zeroed (output_zero) or untouched (output_ignore) */
 __CPROVER_ensures(g_whole_view_scaled || ((option == OPT_output_zero) ? (g_writes == 1 && g_state == ((g_x >= (ptrdiff_t)kernel->center_ && g_x + (ptrdiff_t)(kernel->size - kernel->center_ - 1) < src_view->w) ? 2 : 1)) :
                    (option == OPT_output_ignore) ? ((g_x >= (ptrdiff_t)kernel->center_ && g_x + (ptrdiff_t)(kernel->size - kernel->center_ - 1) < src_view->w) ? (g_writes == 1 && g_state == 2) : (g_writes == 0 && g_state == 0)) :
@@ -133,6 +147,15 @@ int main(int argc, char** argv){ vr::parse(argc, argv); long bad = 0;
     for (int y = 0; y < 2; y++) for (int x = 0; x < W; x++) { bool fits = x - c >= 0 && x + (K - c - 1) < W; float got = view(dst)(x, y)[0];
       if (fits) { float want = 0; for (int i = 0; i < K; i++) want += kv[i] * view(src)(x - c + i, y)[0]; if (got != want) bad++; }
       else if (got != (opt == 0 ? 0.f : 7777.f)) bad++; } }
+  // in place (the destination view is the source view, as detail::convolve_1d does): results equal those of a separate destination
+  for (int W = 2; W <= 7; W++) for (int K = 2; K <= 4; K++) for (int c = 0; c < K; c++) for (int opt = 0; opt < 5; opt++) {
+    boundary_option o = opt == 0 ? boundary_option::output_zero : opt == 1 ? boundary_option::output_ignore : opt == 2 ? boundary_option::extend_zero : opt == 3 ? boundary_option::extend_constant : boundary_option::extend_zero;
+    gray32f_image_t a(W, 2), b(W, 2), ref(W, 2); for (int y = 0; y < 2; y++) for (int x = 0; x < W; x++) { view(a)(x, y)[0] = float(1 + x * x + 10 * y); view(b)(x, y)[0] = view(a)(x, y)[0]; view(ref)(x, y)[0] = view(a)(x, y)[0]; }
+    std::vector<float> kv(K); for (int i = 0; i < K; i++) kv[i] = float(i + 1); kernel_1d<float> ker(kv.begin(), K, c);
+    correlate_rows<gray32f_pixel_t>(const_view(a), ker, view(ref), o);          // separate destination (pre-filled with the source so that output_ignore is comparable)
+    correlate_rows<gray32f_pixel_t>(view(b), ker, view(b), o);                  // in place
+    for (int y = 0; y < 2; y++) for (int x = 0; x < W; x++) if (view(b)(x, y)[0] != view(ref)(x, y)[0])
+      REPRODUCED("in-place correlate_rows (width %d, kernel size %d centre %d, option %d): dst(%d,%d) = %g, with a separate destination %g", W, K, c, opt, x, y, (double)view(b)(x, y)[0], (double)view(ref)(x, y)[0]); }
   if (bad) REPRODUCED("%ld outputs: output_zero / output_ignore did not correlate exactly the outputs whose window fits inside the row", bad);
   NOT_REPRODUCED("border handling of output_zero / output_ignore matches the definition on the sampled sizes"); }
 '''
